@@ -34,7 +34,7 @@ Definition dec_opt (f : bytes) : option bytes :=
 Definition dec_quit (f : bytes) : option bool :=
   if bytes_eqb f (bs "T") then Some true else if bytes_eqb f (bs "F") then Some false else None.
 
-(* cases:  rt <protocol> <host> <path> <username> <password> <url> <quit>  |  parse <bytes> *)
+(* cases:  rt|tb <protocol> <host> <path> <username> <password> <url> <quit>  |  parse <bytes> *)
 Definition run_model (fs : list bytes) : bytes :=
   let op := nth_field 0 fs in
   if bytes_eqb op (bs "rt") then
@@ -47,6 +47,18 @@ Definition run_model (fs : list bytes) : bytes :=
       | (out, Err e) => bs "w err " ++ err_name e ++ bs " " ++ hx out
       | (_, Panic) => bs "PANIC"
       | (_, OutOfFuel) => bs "HANG"
+      end
+    else bs "notutf8"
+  else if bytes_eqb op (bs "tb") then
+    let c := mk_ctx (dec_opt (nth_field 1 fs)) (dec_opt (nth_field 2 fs)) (dec_opt (nth_field 3 fs))
+                    (dec_opt (nth_field 4 fs)) (dec_opt (nth_field 5 fs)) (dec_opt (nth_field 6 fs))
+                    (dec_quit (nth_field 7 fs)) in
+    if strings_utf8 c then
+      match to_bstring c with
+      | Ok out => bs "ok " ++ hx out
+      | Err e => bs "err " ++ err_name e
+      | Panic => bs "PANIC"
+      | OutOfFuel => bs "HANG"
       end
     else bs "notutf8"
   else if bytes_eqb op (bs "parse") then
